@@ -1,23 +1,33 @@
-//! C18: Value::get / insert / remove on (value, path[, x, prune]).
+//! C18: Value::get / insert / remove on (value, path[, x, prune, q]).
+//! Besides the operation's own outputs it reports the reads the property's laws talk about
+//! (get p before/after, get q before/after) so the laws can be judged on the implementation alone.
 use crate::vj::*;
 use serde_json::{json, Value as J};
 
 pub fn run(case: &J) -> J {
     let v = from_json(&case["v"]);
     let p = path_from_json(&case["p"]);
+    let q = case.get("q").map(path_from_json);
     match case["op"].as_str().unwrap() {
         "get" => json!({"res": opt_to_json(v.get(&p))}),
         "insert" => {
             let x = from_json(&case["x"]);
             let mut v2 = v.clone();
             let prev = v2.insert(&p, x);
-            json!({"res": opt_to_json(prev.as_ref()), "v": to_json(&v2)})
+            let mut out = json!({"res": opt_to_json(prev.as_ref()), "v": to_json(&v2),
+                   "get_p_before": opt_to_json(v.get(&p)), "get_p_after": opt_to_json(v2.get(&p))});
+            if let Some(q) = q {
+                out["get_q_before"] = opt_to_json(v.get(&q));
+                out["get_q_after"] = opt_to_json(v2.get(&q));
+            }
+            out
         }
         "remove" => {
             let prune = case["prune"].as_bool().unwrap();
             let mut v2 = v.clone();
             let prev = v2.remove(&p, prune);
-            json!({"res": opt_to_json(prev.as_ref()), "v": to_json(&v2)})
+            json!({"res": opt_to_json(prev.as_ref()), "v": to_json(&v2),
+                   "get_p_before": opt_to_json(v.get(&p)), "get_p_after": opt_to_json(v2.get(&p))})
         }
         o => json!({"harness_error": format!("bad op {o}")}),
     }
